@@ -4,6 +4,19 @@ use crate::explore::Violation;
 use crate::ix::*;
 use crate::model::*;
 
+thread_local! {
+    /// how often a non-trivial premise of an oracle was met (vacuity guard, reported in the evidence)
+    pub static PREMISES: std::cell::Cell<u64> = std::cell::Cell::new(0);
+}
+
+fn premise() {
+    PREMISES.with(|p| p.set(p.get() + 1));
+}
+
+pub fn take_premises() -> u64 {
+    PREMISES.with(|p| p.replace(0))
+}
+
 fn v(out: &mut Vec<Violation>, clause: &str, detail: String) {
     out.push(Violation { clause: clause.to_string(), detail });
 }
@@ -60,6 +73,7 @@ pub fn c01(scn: &Scenario, tr: &[Ev]) -> Vec<Violation> {
                 _ => false,
             };
             if rejected {
+                premise();
                 if let Some(m) = o.msg {
                     if ax.handler_called.contains_key(&m) {
                         v(&mut out, "C01b rejected message handled", format!("actor {a} message {m}: sender got {:?} but the handler ran", o.res));
@@ -80,6 +94,7 @@ pub fn c01(scn: &Scenario, tr: &[Ev]) -> Vec<Violation> {
                     }
                 }
                 let called = ax.handler_called.get(&m).and_then(|c| c.first().copied());
+                premise();
                 match (called, stopcall) {
                     (Some(c), Some(s)) if c > s => v(&mut out, "C01c handled before on_stop", format!("actor {a} message {m} handled after on_stop began")),
                     (None, Some(_)) => v(&mut out, "C01c accepted work discarded", format!("actor {a} message {m} was accepted (op {}) before stop/drop but on_stop ran without it being handled", o.op)),
@@ -118,6 +133,7 @@ pub fn c02(scn: &Scenario, tr: &[Ev]) -> Vec<Violation> {
                 }
                 let Some(m2) = o2.msg else { continue };
                 if acc1 < o2.start {
+                    premise();
                     if let Some(c2) = ax.handler_called.get(&m2).and_then(|c| c.first()) {
                         if c2 < c1 {
                             v(&mut out, "C02 order", format!("actor {a}: send of {m1} completed (pos {acc1}) before send of {m2} began (pos {}), yet {m2} was handled first", o2.start));
@@ -173,6 +189,7 @@ pub fn c03(scn: &Scenario, tr: &[Ev]) -> Vec<Violation> {
         let exit = ax.handler_exit.get(&m);
         match &o.res {
             Some(Res::Rep { id, seq, actor }) => {
+                premise();
                 let want = exit.map(|(_, s)| s.clone()).unwrap_or_default();
                 if *id != m || *actor != a || !want.ends_with(&format!("#{seq}")) || exit.map(|x| x.0) > o.end {
                     v(&mut out, "C03 reply integrity", format!("ask {m} to actor {a} returned Rep(id={id},seq={seq},actor={actor}); handler exit recorded {want:?}"));
@@ -241,6 +258,7 @@ pub fn c03(scn: &Scenario, tr: &[Ev]) -> Vec<Violation> {
         // later asks fail at once
         if let (Some((j, _)), true) = (&ax.joined, k.is_ask()) {
             if o.start > *j {
+                premise();
                 match (&o.res, o.end) {
                     (Some(Res::Err { .. }), Some(_)) => {}
                     other => v(&mut out, "C03 ask after end", format!("ask {m} issued after actor {a} ended: {other:?}")),
@@ -344,6 +362,7 @@ pub fn c04(scn: &Scenario, tr: &[Ev]) -> Vec<Violation> {
         }
         // killed flag
         if let Some((s, k)) = ax.on_stop_called.first() {
+            premise();
             let via_run_err = ax.run_err().map(|(i, _)| i < *s).unwrap_or(false);
             let kill_before = ix.kills_of(a).any(|o| o.start < *s && matches!(o.res, Some(Res::Ok)));
             if !scn.has_tag("selfkill_in_on_run") {
@@ -377,6 +396,7 @@ pub fn c05(scn: &Scenario, tr: &[Ev]) -> Vec<Violation> {
     let mut out = Vec::new();
     for (a, ax) in ix.actors.iter().enumerate() {
         let Some((_, js)) = &ax.joined else { continue };
+        premise();
         if !js.laws_ok {
             v(&mut out, "C05 accessor laws", format!("actor {a}: {}", js.laws_detail));
         }
@@ -475,6 +495,7 @@ pub fn c06(scn: &Scenario, tr: &[Ev]) -> Vec<Violation> {
         if ax.end_begins().map(|e| e < k).unwrap_or(false) {
             continue;
         }
+        premise();
         let later_handlers: Vec<usize> = ax.calls.iter().filter(|(i, h, _)| *h == Hook::Handler && *i > k).map(|x| x.0).collect();
         if later_handlers.len() > 1 {
             v(&mut out, "C06 at most one further handler", format!("actor {a}: {} handlers started after kill() returned (pos {k})", later_handlers.len()));
@@ -555,6 +576,7 @@ pub fn c07(scn: &Scenario, tr: &[Ev]) -> Vec<Violation> {
             if stuck {
                 continue;
             }
+            premise();
             // must have finished: on_stop(false), joined
             match ax.on_stop_called.first() {
                 Some((_, false)) => {}
@@ -576,6 +598,7 @@ pub fn c07(scn: &Scenario, tr: &[Ev]) -> Vec<Violation> {
                 }
             }
         } else if strong > 0 && !stopped && !stop_pending {
+            premise();
             if !ax.on_stop_called.is_empty() || ax.joined.is_some() {
                 v(&mut out, "C07 never ends on its own", format!("actor {a}: {strong} strong reference(s) exist, no stop/kill/error, yet the actor ended"));
             }
@@ -625,6 +648,7 @@ pub fn c08(scn: &Scenario, tr: &[Ev]) -> Vec<Violation> {
             let mut pts = r.marks.clone();
             pts.push(r.called);
             for p in pts {
+                premise();
                 {
                     // occupancy: accepted (sends + stop markers) minus taken
                     let acc = ix
@@ -757,6 +781,7 @@ pub fn c09(scn: &Scenario, tr: &[Ev]) -> Vec<Violation> {
                 break;
             }
             if let EvK::Quiet { status, .. } = &e.k {
+                premise();
                 // senders still blocked vs. free slots
                 let st: Vec<char> = status.chars().collect();
                 let mut blocked = 0;
@@ -805,6 +830,7 @@ pub fn c10(scn: &Scenario, tr: &[Ev]) -> Vec<Violation> {
         let (Some(a), Some(m)) = (o.target, o.msg) else { continue };
         let ax = &ix.actors[a];
         let deadline = o.t0 + t as u64;
+        premise();
         let Some(t1) = o.t1 else {
             v(&mut out, "C10 returns by its deadline", format!("op {} (timeout {t} at t={}) never returned", o.op, o.t0));
             continue;
@@ -920,6 +946,7 @@ pub fn c11(scn: &Scenario, tr: &[Ev]) -> Vec<Violation> {
         let strongish = matches!(o.route.as_str(), "strong" | "tell" | "ask" | "ctl" | "self" | "reg");
         match (&o.k, &o.res) {
             (OpK::IsAlive, Some(Res::Bool(b))) if strongish => {
+                premise();
                 let ending = ax.end_begins();
                 if ending.map(|e| o.start < e).unwrap_or(true) && !*b {
                     v(&mut out, "C11 is_alive true while running", format!("is_alive() (op {}) on actor {a} returned false before the actor began to end", o.op));
@@ -945,6 +972,7 @@ pub fn c11(scn: &Scenario, tr: &[Ev]) -> Vec<Violation> {
                 }
             }
             (OpK::Upgrade, Some(Res::Upgraded(got))) => {
+                premise();
                 // strong(A) bounds at this position
                 let held = held_strong(&ix, o.start)[a];
                 let own_ref = ax.on_start_exit.as_ref().map(|x| x.0 > o.start).unwrap_or(true) && ax.spawned.is_some() && !ax.crashed();
@@ -1025,6 +1053,7 @@ pub fn c13(scn: &Scenario, tr: &[Ev]) -> Vec<Violation> {
                 }
             }
             Some(reason) => {
+                premise();
                 failures += 1;
                 if dls.len() != 1 {
                     v(&mut out, "C13 exactly one per failure", format!("op {} -> {:?} recorded {} dead letters", o.op, o.res, dls.len()));
@@ -1066,4 +1095,334 @@ pub fn c13(scn: &Scenario, tr: &[Ev]) -> Vec<Violation> {
         }
     }
     out
+}
+
+// ------------------------------------------------------------------ C14 / C15: deadlock detection
+
+/// In-flight asks issued from actor hooks: (op index in ix.ops, asker actor, asked actor)
+fn actor_asks(ix: &Ix) -> Vec<(usize, usize, usize)> {
+    let mut v = Vec::new();
+    for (k, o) in ix.ops.iter().enumerate() {
+        if let (Some(sk), Some(ow), Some(t)) = (o.send_kind(), o.owner, o.target) {
+            if sk.is_ask() {
+                if let Some(a) = ix.owner_actor(ow) {
+                    v.push((k, a, t));
+                }
+            }
+        }
+    }
+    v
+}
+
+/// position at which the ask `o` stopped being an unanswered in-flight ask (exclusive upper end)
+fn ask_live_until(ix: &Ix, o: &OpRec, asker: usize) -> usize {
+    let n = ix.tr.len();
+    let mut until = o.end.unwrap_or(n);
+    let t = o.target.unwrap();
+    let tx = &ix.actors[t];
+    // the reply has been sent once the handler of this very message has exited
+    if let Some(m) = o.msg {
+        if let Some((x, _)) = tx.handler_exit.get(&m) {
+            until = until.min(*x);
+        }
+    }
+    // the envelope is destroyed when the callee ends
+    if let Some(e) = tx.end_exit_index() {
+        if e > o.start {
+            until = until.min(e);
+        }
+    }
+    // the asking future is dropped when the asker unwinds or its on_run is cancelled
+    let ax = &ix.actors[asker];
+    for p in &ax.panics {
+        if *p > o.start {
+            until = until.min(*p);
+        }
+    }
+    for r in &ax.runs {
+        if let Some(c) = r.cancelled {
+            if r.called < o.start && c > o.start {
+                until = until.min(c);
+            }
+        }
+    }
+    until
+}
+
+impl ActorIx {
+    pub fn end_exit_index(&self) -> Option<usize> {
+        let mut c: Vec<usize> = Vec::new();
+        if let Some((i, _)) = &self.on_stop_exit {
+            c.push(*i);
+        }
+        if let Some(i) = self.panics.first() {
+            c.push(*i);
+        }
+        if let Some((i, o)) = &self.on_start_exit {
+            if o != "Ok" {
+                c.push(*i);
+            }
+        }
+        c.into_iter().min()
+    }
+}
+
+/// unanswered edges (asker -> asked) at trace position `at`, not counting op `skip`
+fn unanswered_at(ix: &Ix, asks: &[(usize, usize, usize)], at: usize, skip: usize) -> Vec<(usize, usize)> {
+    let mut e = Vec::new();
+    for (k, a, t) in asks {
+        if *k == skip {
+            continue;
+        }
+        let o = &ix.ops[*k];
+        if o.start < at && ask_live_until(ix, o, *a) > at && !deadlock_panicked(ix, o) {
+            e.push((*a, *t));
+        }
+    }
+    e
+}
+
+/// the ask `o` itself was refused by the detector (panic right at its start)
+fn deadlock_panicked(ix: &Ix, o: &OpRec) -> bool {
+    for e in &ix.tr[o.start + 1..] {
+        if e.owner != o.owner {
+            continue;
+        }
+        return matches!(&e.k, EvK::Panic { msg, .. } if msg.starts_with("Deadlock detected"));
+    }
+    false
+}
+
+fn path(edges: &[(usize, usize)], from: usize, to: usize) -> Option<Vec<usize>> {
+    let mut cur = from;
+    let mut seen = vec![from];
+    for _ in 0..=edges.len() {
+        let nxt = edges.iter().find(|(a, _)| *a == cur).map(|x| x.1)?;
+        seen.push(nxt);
+        if nxt == to {
+            return Some(seen);
+        }
+        cur = nxt;
+    }
+    None
+}
+
+pub fn c14(scn: &Scenario, tr: &[Ev]) -> Vec<Violation> {
+    let ix = Ix::new(scn, tr);
+    let mut out = Vec::new();
+    let asks = actor_asks(&ix);
+    for (k, x, y) in &asks {
+        let o = &ix.ops[*k];
+        // an ask to an actor that has already ended just fails; no wait, no cycle
+        let callee_gone = ix.actors[*y].end_exit_index().map(|e| e < o.start).unwrap_or(false);
+        let edges = unanswered_at(&ix, &asks, o.start, *k);
+        let cyc: Option<Vec<usize>> = if x == y { Some(vec![*x, *x]) } else { path(&edges, *y, *x).map(|mut p| { p.insert(0, *x); p }) };
+        if let Some(cycle) = cyc {
+            if callee_gone {
+                continue;
+            }
+            premise();
+            // this ask would close a cycle: it must panic instead of waiting
+            let mut panicked = None;
+            for e in &tr[o.start + 1..] {
+                if e.owner != o.owner {
+                    continue;
+                }
+                if let EvK::Panic { msg, .. } = &e.k {
+                    panicked = Some(msg.clone());
+                }
+                break;
+            }
+            match panicked {
+                Some(msg) if msg.starts_with("Deadlock detected") => {
+                    for a in &cycle {
+                        let name = format!("rsv::world::SA(#L{a})");
+                        if !msg.contains(&name) {
+                            v(&mut out, "C14 message names the cycle", format!("cycle {cycle:?}: panic message {msg:?} does not name actor {a}"));
+                        }
+                    }
+                }
+                other => v(&mut out, "C14 cycle-closing ask panics", format!("ask op {} from actor {x} to {y} closes the cycle {cycle:?} (unanswered edges {edges:?}) but did not panic: {other:?}", o.op)),
+            }
+        }
+    }
+    // no participant is left waiting forever
+    for (k, x, y) in &asks {
+        let o = &ix.ops[*k];
+        if o.end.is_none() && !deadlock_panicked(&ix, o) {
+            // still legitimately waiting only if the callee is parked in a script that never ends
+            let alive_asker = ix.actors[*x].panics.is_empty();
+            let cancelled = ask_live_until(&ix, o, *x) < tr.len();
+            if alive_asker && !cancelled && !scn.has_tag("parked") {
+                v(&mut out, "C14 nobody waits forever", format!("ask op {} from actor {x} to {y} is still waiting at terminal quiescence", o.op));
+            }
+        }
+    }
+    // the graph holds every unanswered edge of a blocked asker
+    let mut graph: Vec<(i64, i64)> = Vec::new();
+    for (p, e) in tr.iter().enumerate() {
+        match &e.k {
+            EvK::Graph { edges } => graph = edges.clone(),
+            EvK::Quiet { status, .. } => {
+                let st: Vec<char> = status.chars().collect();
+                for (a, b) in unanswered_at(&ix, &asks, p, usize::MAX) {
+                    let blocked = st.get(ix.actor_owner(a)) == Some(&'B');
+                    if blocked && !graph.contains(&(a as i64, b as i64)) {
+                        v(&mut out, "C14 in-flight ask is tracked", format!("at {p}: actor {a} waits for {b} but the wait-for graph is {graph:?}"));
+                    }
+                }
+            }
+            _ => {}
+        }
+    }
+    out
+}
+
+pub fn c15(scn: &Scenario, tr: &[Ev]) -> Vec<Violation> {
+    let ix = Ix::new(scn, tr);
+    let mut out = Vec::new();
+    let asks = actor_asks(&ix);
+    for (p, e) in tr.iter().enumerate() {
+        match &e.k {
+            EvK::Panic { msg, .. } if msg.starts_with("Deadlock detected") => {
+                let Some(x) = e.owner.and_then(|o| ix.owner_actor(o)) else {
+                    v(&mut out, "C15 non-actor callers are never tracked", format!("deadlock panic at {p} in a task that is not an actor hook"));
+                    continue;
+                };
+                // the ask that panicked: the last OpStart of this owner before p
+                let Some((k, _, y)) = asks.iter().filter(|(k, a, _)| *a == x && ix.ops[*k].start < p).last().copied() else {
+                    v(&mut out, "C15 machinery", format!("no ask precedes the deadlock panic at {p}"));
+                    continue;
+                };
+                let o = &ix.ops[k];
+                premise();
+                let edges = unanswered_at(&ix, &asks, o.start, k);
+                let justified = x == y || path(&edges, y, x).is_some();
+                if !justified {
+                    v(&mut out, "C15 panic only on a real cycle", format!("actor {x} asking {y} (op {}) panicked with {msg:?} but the unanswered in-flight asks at that moment are {edges:?}: no chain from {y} back to {x}", o.op));
+                }
+            }
+            EvK::Graph { edges } => {
+                for (a, b) in edges {
+                    premise();
+                    if *a < 0 || *b < 0 {
+                        v(&mut out, "C15 non-actor callers are never tracked", format!("graph at {p} has an edge with an id that is no actor: {edges:?}"));
+                        continue;
+                    }
+                    // must be a not-yet-returned ask of its owner
+                    let ok = asks.iter().any(|(k, x, y)| {
+                        let o = &ix.ops[*k];
+                        *x == *a as usize && *y == *b as usize && o.start < p && o.end.map(|e| e >= p.saturating_sub(0)).unwrap_or(true) && !deadlock_panicked(&ix, o) && owner_still_holds(&ix, o, *x, p)
+                    });
+                    if !ok {
+                        v(&mut out, "C15 only in-flight asks are in the graph", format!("graph at {p} = {edges:?}: edge {a}->{b} is not a pending ask of actor {a}"));
+                    }
+                }
+            }
+            _ => {}
+        }
+    }
+    // no residue
+    let last_graph = tr.iter().rev().find_map(|e| if let EvK::Graph { edges } = &e.k { Some(edges.clone()) } else { None });
+    if let Some(g) = last_graph {
+        let pending = asks.iter().any(|(k, _, _)| ix.ops[*k].end.is_none() && !deadlock_panicked(&ix, &ix.ops[*k]));
+        if !g.is_empty() && !pending {
+            v(&mut out, "C15 no residue", format!("every ask has finished but the wait-for graph still holds {g:?}"));
+        }
+    }
+    // clients never panic
+    for (p, e) in tr.iter().enumerate() {
+        if let EvK::Panic { msg, .. } = &e.k {
+            if e.owner.map(|o| o < ix.nc).unwrap_or(false) {
+                v(&mut out, "C15 non-actor callers are never tracked", format!("client task panicked at {p}: {msg}"));
+            }
+        }
+    }
+    out
+}
+
+/// the asking future of `o` still exists at position p (asker did not unwind, on_run not cancelled)
+fn owner_still_holds(ix: &Ix, o: &OpRec, asker: usize, p: usize) -> bool {
+    let ax = &ix.actors[asker];
+    if ax.panics.iter().any(|q| *q > o.start && *q < p) {
+        return false;
+    }
+    for r in &ax.runs {
+        if let Some(c) = r.cancelled {
+            if r.called < o.start && c > o.start && c < p {
+                return false;
+            }
+        }
+    }
+    true
+}
+
+// ------------------------------------------------------------------ C20: metrics
+
+pub fn c20(scn: &Scenario, tr: &[Ev]) -> Vec<Violation> {
+    let ix = Ix::new(scn, tr);
+    let mut out = Vec::new();
+    for (a, ax) in ix.actors.iter().enumerate() {
+        // handler entries / exits (a panic ends the handler too) as positions
+        let entered: Vec<usize> = ax.calls.iter().filter(|(_, h, _)| *h == Hook::Handler).map(|x| x.0).collect();
+        let mut finished: Vec<usize> = ax.handler_exit.values().map(|x| x.0).collect();
+        finished.sort_unstable();
+        let mut last_by_owner: std::collections::BTreeMap<usize, u64> = Default::default();
+        let mut final_count: Option<u64> = None;
+        let parked = ix.hook_stuck(a);
+        for o in ix.ops.iter().filter(|o| o.k == OpK::Metrics && o.target == Some(a)) {
+            let Some(Res::Metrics { count, avg_ns, max_ns, consistent }) = &o.res else { continue };
+            premise();
+            let p = o.start;
+            let lo = finished.iter().filter(|x| **x < p).count() as u64;
+            let hi = entered.iter().filter(|x| **x < p).count() as u64;
+            // a handler that panicked is recorded while unwinding: its Exit event is written just before the panic
+            if *count < lo || *count > hi {
+                v(&mut out, "C20 message_count counts handled messages", format!("actor {a}: message_count={count} at {p}, handlers finished {lo}, entered {hi}"));
+            }
+            if let Some(ow) = o.owner {
+                let prev = last_by_owner.insert(ow, *count).unwrap_or(0);
+                if *count < prev {
+                    v(&mut out, "C20 message_count never decreases", format!("actor {a}: reader {ow} saw {prev} then {count}"));
+                }
+            }
+            if !consistent {
+                v(&mut out, "C20 snapshot agrees with accessors", format!("actor {a}: op {}", o.op));
+            }
+            // once quiescent (actor ended, or idle with nothing in flight)
+            let ended = ax.joined.as_ref().map(|x| x.0 < p).unwrap_or(false);
+            if ended {
+                if avg_ns > max_ns {
+                    v(&mut out, "C20 avg <= max", format!("actor {a}: avg {avg_ns}ns > max {max_ns}ns"));
+                }
+                let busy_ns = longest_busy(&ix, a);
+                if *max_ns < busy_ns {
+                    v(&mut out, "C20 max covers the longest handler", format!("actor {a}: max_processing_time {max_ns}ns, a handler demonstrably took {busy_ns}ns"));
+                }
+                if *count != entered.len() as u64 && !parked {
+                    v(&mut out, "C20 final message_count", format!("actor {a}: after the end message_count={count}, handlers entered={}", entered.len()));
+                }
+                if let Some(f) = final_count {
+                    if f != *count {
+                        v(&mut out, "C20 final values through any handle", format!("actor {a}: {f} vs {count}"));
+                    }
+                }
+                final_count = Some(*count);
+            }
+        }
+        // a weak handle that could not be upgraded although strong references exist is C11's business; here:
+        // readable through a weak-upgraded handle means: if the upgrade succeeded the values are the same ones (checked above)
+    }
+    out
+}
+
+fn longest_busy(ix: &Ix, a: usize) -> u64 {
+    let mut best = 0u64;
+    for (m, _) in ix.actors[a].handler_exit.iter() {
+        if let Some(spec) = ix.msg_spec(*m) {
+            let ms: u64 = spec.steps.iter().map(|s| if let Step::Busy(d) = s { *d as u64 } else { 0 }).sum();
+            best = best.max(ms * 1_000_000);
+        }
+    }
+    best
 }
